@@ -39,7 +39,8 @@ ASSUMPTIONS = [
     'two threads only in this form: when the top object has a string-valued parameter, its text is taken on the '
     'main thread while a second thread is parked inside pprint() of the same object (the string is a str subclass '
     'whose repr waits); other interleavings are not exercised',
-    'script_repr() text is evaluated with only the module roots bound (what its import lines provide), '
+    'script_repr() text is a script: its import lines are executed (the case\'s modules registered in sys.modules) '
+    'and its expression evaluated in the resulting namespace plus inf/nan, '
     '.param.pprint() text with the class names bound; the Lean reader accepts both spellings',
     'states are those reachable by one constructor call, possibly after class-level defaults were re-assigned '
     '(only on classes whose constructors, and those of their subclasses, take **params: otherwise an existing '
@@ -242,6 +243,31 @@ class Env:
             super(holder[0], self).__init__(**args, **extra)
         __init__.__signature__ = self._signature(sig)
         return __init__
+
+    def modules_registered(self):
+        """context manager: the case's module names importable (`import c20pkg.sub` works)"""
+        import contextlib
+        import sys
+
+        @contextlib.contextmanager
+        def cm():
+            added = []
+            try:
+                for d, cls in zip(self.case['classes'], self.classes):
+                    parts = d['module'].split('.')
+                    for i in range(1, len(parts) + 1):
+                        name = '.'.join(parts[:i])
+                        if name not in sys.modules:
+                            sys.modules[name] = types.ModuleType(name)
+                            added.append(name)
+                        if i > 1:
+                            setattr(sys.modules['.'.join(parts[:i - 1])], parts[i - 1], sys.modules[name])
+                    setattr(sys.modules[d['module']], d['name'], cls)
+                yield
+            finally:
+                for name in added:
+                    sys.modules.pop(name, None)
+        return cm()
 
     def build(self, r):
         """recipe -> Python value"""
@@ -538,12 +564,16 @@ def run_impl(case):
                 break
         out = {'classes': env.class_table(), 'state': env.state_of(obj)}
         for key, fn in (('pp', lambda o: o.param.pprint()),
-                        ('sr', lambda o: param.script_repr(o, show_imports=False))):
+                        ('sr', lambda o: param.script_repr(o))):
             try:
                 text = _gated(param, obj, fn) if gate else fn(obj)
             except Exception as e:
                 out[key] = {'toks': [], 'tt': None, 'direct': f'printer raised {type(e).__name__}'}
                 continue
+            header = ''
+            if key == 'sr':
+                # the script: import lines, an empty line, the expression
+                header, _, text = text.partition('\n\n')
             toks = _toks(text)
             try:
                 tt = to_tree(toks)
@@ -552,7 +582,14 @@ def run_impl(case):
             try:
                 # script_repr is evaluated strictly: only what the script's own imports provide (the module
                 # roots), not the bare class names; pprint() with the class names in scope
-                ns = dict(env.ns) if key == 'pp' else {k: v for k, v in env.ns.items() if not isinstance(v, type)}
+                if key == 'pp':
+                    ns = dict(env.ns)
+                else:
+                    # run the script's own import lines (the case's modules are registered in sys.modules for
+                    # the duration); only `inf` / `nan` are added
+                    ns = {'inf': INF, 'nan': NAN}
+                    with env.modules_registered():
+                        exec(header, ns)
                 rebuilt = eval(text, ns)
                 direct = _same(param, obj, rebuilt)
             except Exception as e:
